@@ -389,8 +389,8 @@ func (r *c9Runner) evalClient(c *c9ClientRun, segFirst map[*c9AU]*c9AU) {
 	// ---- nothing missing. Timing-independent: the harness decodes every segment / part the muxer served to THIS
 	// client; a stream is processed strictly in download order, so a response is fully processed when a later
 	// response of the same stream has a delivered unit, or (traditional streams: the next segment is requested only
-	// after the previous one was taken off the queue) when it is at least four responses old (one segment may be in processing, one queued, one in download), or when the client was
-	// closed idle. Every unit in a fully processed response that does not precede the origin must have been
+	// after the previous one was taken off the queue) when it is at least four responses old (one segment may be in
+	// processing, one queued, one in download). Every unit in a fully processed response that does not precede the origin must have been
 	// delivered (MPEG-TS: the first response is exempt for non-leading tracks - units handed over before the first
 	// leading-track unit are dropped, C10's gating reading).
 	{
@@ -444,7 +444,7 @@ func (r *c9Runner) evalClient(c *c9ClientRun, segFirst map[*c9AU]*c9AU) {
 					}
 				}
 				for i, sv := range rs {
-					processed := i < last || (r.variant != "ll" && i <= len(rs)-4) || (r.idle && c.end == "closed")
+					processed := i < last || (r.variant != "ll" && i <= len(rs)-4)
 					if !processed || nMissing >= 2 {
 						continue
 					}
@@ -468,8 +468,19 @@ func (r *c9Runner) evalClient(c *c9ClientRun, segFirst map[*c9AU]*c9AU) {
 							continue
 						}
 						nMissing++
-						fail("", "track %d (%s): unit %d, written at %s s (%s ticks after the origin), is in %s which the client downloaded and processed, but was not delivered",
-							pos, r.tracks[u.track].codec, p, u.tsec.FloatString(4), after.FloatString(1), c9Canonical(strings.TrimPrefix(sv.path, "/")))
+						var prof []string
+						for _, x := range rs {
+							nd := 0
+							for _, q := range x.pays {
+								if delivered[q] {
+									nd++
+								}
+							}
+							prof = append(prof, fmt.Sprintf("%d/%d", nd, len(x.pays)))
+						}
+						fail("", "track %d (%s): unit %d, written at %s s (%s ticks after the origin), is in %s which the client downloaded and processed, but was not delivered [response %d of %d of this stream, last response with a delivery %d, client end %s, delivered/contained per response: %s]",
+							pos, r.tracks[u.track].codec, p, u.tsec.FloatString(4), after.FloatString(1), c9Canonical(strings.TrimPrefix(sv.path, "/")),
+							i, len(rs), last, c.end, strings.Join(prof, " "))
 						break
 					}
 				}
